@@ -8,6 +8,7 @@
    both files to the end (io.EOF) and delivers the same header/attachment/metadata events in the
    same order and the same schema/channel/message tokens in the same order.  (The relative order
    of the two classes differs between layouts: C12.v, C12_ex_layouts.) *)
+From Mcap Require ConstsTie LayoutTie DecisionTieR. (* regenerated ties to /repo's source that this property's model relies on *)
 From Coq Require Import List NArith ZArith Bool.
 From Coq.Strings Require Import Byte.
 From Mcap Require Import Bytes GoSem Crc32 Records RecordsFacts Writer WriterFactsA WriterFactsB
